@@ -163,14 +163,15 @@ class Reject(Unit):
     functions = ("pulsarbat.transforms.transforms:concatenate",)
     witnesses = 1
 
-    def __init__(self, clsname, kind, rate="kHz", which=1, axis=0):
-        self.clsname, self.kind, self.rate, self.which, self.axis = clsname, kind, rate, which, axis
-        self.name = f"reject-{clsname}-{kind}-{rate}-w{which}-ax{axis}"
-        self.bounds = {"class": clsname, "perturbation": kind, "sample_rate": str(RATES[rate][0]), "piece": which, "axis": axis}
+    def __init__(self, clsname, kind, rate="kHz", which=1, axis=0, nchan=None):
+        self.clsname, self.kind, self.rate, self.which, self.axis, self.nchan = clsname, kind, rate, which, axis, nchan
+        self.name = f"reject-{clsname}-{kind}-{rate}-w{which}-ax{axis}" + (f"-nchan{nchan}" if nchan else "")
+        self.bounds = {"class": clsname, "perturbation": kind, "sample_rate": str(RATES[rate][0]), "piece": which, "axis": axis,
+                       "nchan": nchan or "class default"}
 
     def build(self, S):
         N = S.int("N", 0, 2**40)
-        sig, dt, t0v = mk_sig(S, self.clsname, N, self.rate)
+        sig, dt, t0v = mk_sig(S, self.clsname, N, self.rate, nchan=self.nchan)
         p1 = S.int("p1", 0, 2**40)
         p2 = S.int("p2", 0, 2**40)
         S.assume(iterm(p1) <= iterm(p2))
@@ -192,6 +193,13 @@ class Reject(Unit):
             S.assume(z3.And(rterm(d) < 10**6, rterm(d) > -10**6))
             st = pieces[w].start_time
             pieces[w] = cls.like(pieces[w], start_time=st + S.quantity(d, u.s))
+        elif k == "t0-shift-after-missing":
+            # an earlier piece has a start time, the next one has none, the one after it starts a sample or more off
+            S.assume(z3.Or(rterm(d) >= RV(dt), -rterm(d) >= RV(dt)))
+            S.assume(z3.And(rterm(d) < 10**6, rterm(d) > -10**6))
+            st = pieces[2].start_time
+            pieces[1] = cls.like(pieces[1], start_time=None)
+            pieces[2] = cls.like(pieces[2], start_time=st + S.quantity(d, u.s))
         elif k == "swap":
             S.assume(iterm(a["cuts"][0]) > 0)
             S.assume(iterm(a["cuts"][1]) > iterm(a["cuts"][0]))
@@ -330,6 +338,10 @@ def units(tier):
         us.append(Reject(cn, "type", next(rates)))
     us.append(Reject("Signal", "empty-list"))
     us.append(Reject("RadioSignal", "chan_bw", which=1))
+    us.append(Reject("RadioSignal", "chan_bw", which=2, nchan=1))          # (one channel: the labels alone cannot tell)
+    us.append(Reject("IntensitySignal" if "IntensitySignal" in SIGS else "RadioSignal", "chan_bw", which=0, nchan=1))
+    for cn in ("Signal", "RadioSignal", "DualPolarizationSignal"):
+        us.append(Reject(cn, "t0-shift-after-missing", next(rates)))
     us.append(Reject("FullStokesSignal", "chan_bw", which=2))
     us.append(Reject("RadioSignal", "labels", which=1))
     us.append(Reject("FullStokesSignal", "labels", which=0, axis=0))
